@@ -138,6 +138,16 @@ let dec8 (x : float) : dec =
   end
 let anon_text (_ : float gate) = chars_of_string "Anonymous gate: <repr>"
 
+let sx_rarg = function
+  | RQ q -> S.List [atom "q"; sx_z q]
+  | RB b -> S.List [atom "b"; sx_z b]
+  | RNumLit l -> S.List [atom "lit"; sx_str l]
+  | RInt k -> S.List [atom "int"; sx_z k]
+let sx_rline = function
+  | RGate (n, ps, qs) -> S.List [atom "gate"; sx_str n; sx_list sx_rarg ps; sx_list sx_z qs]
+  | RAssign (b, n, q) -> S.List [atom "assign"; sx_z b; sx_str n; sx_z q]
+  | RComment t -> S.List [atom "comment"; sx_str t]
+  | RRaw t -> S.List [atom "raw"; sx_str t]
 let sx_qsop = function
   | QRxy (th, ph, q) -> S.List [atom "rxy"; sx_float th; sx_float ph; sx_z q]
   | QRz (th, q) -> S.List [atom "rz"; sx_float th; sx_z q]
@@ -226,6 +236,10 @@ let run (op : string) (args : S.t list) : S.t =
   | "v3_float", [x] -> sx_str (fix_literal (render_py8 (dec8 (float_of_sexp x))))
   | "write3", [nq; nb; ss] -> sx_result sx_str (write3 dec8 anon_text (z_of_sexp nq) (z_of_sexp nb) (stmts_of_sexp ss))
   | "export_v1", [nq; ss] -> sx_result sx_str (export_v1 dec8 (z_of_sexp nq) (stmts_of_sexp ss))
+  | "read3", [t] ->
+      sx_opt (fun p -> S.List [sx_str p.r_version; sx_z p.r_nq; sx_z p.r_nb; sx_list sx_rline p.r_lines]) (read3 (str_of_sexp t))
+  | "read1", [t] ->
+      sx_opt (fun (nq, ls) -> S.List [sx_z nq; sx_list sx_rline ls]) (read1 (str_of_sexp t))
   | "export_qs", [nq; nb; ss] ->
       sx_result (fun (ops, bm) -> S.List [sx_list sx_qsop ops; sx_list (sx_opt (sx_pair sx_z sx_z)) bm])
         (export_qs d (z_of_sexp nq) (z_of_sexp nb) (stmts_of_sexp ss))
